@@ -129,16 +129,20 @@ PROPS['C16'] = dict(
 
 PROPS['C08'] = dict(
     level='proof',
-    units=['range'],
+    units=['range', 'cursor'],
     explanation='Ranges: Range::next is verified on its real body for a generic R: RangeBounds<&[u8]> (all nine combinations of included / excluded / unbounded) against the '
                 'documented Cursor semantics: everything yielded lies within both bounds and is the entry at the cursor; on the first call no entry that satisfies both bounds is '
-                'skipped; later calls advance by exactly one entry and yield None only at the end or beyond the upper bound; the cursor stays well-formed.',
+                'skipped; later calls advance by exactly one entry and yield None only at the end or beyond the upper bound; the cursor stays well-formed. '
+                'Cursor::{seek, current, seek_first, next} and `search` are verified on their real bodies over an abstract tree interface: no panic (no underflow on empty nodes, no unwrap of an empty stack, '
+                'no leaf access on a branch), termination, every stack entry indexes into its node, next() after the end is harmless (position unchanged, None again), '
+                'current() is total (callable after any sequence of seek/next).',
     level_text='Single-step contract of the range iterator proved for every bucket content, every key and every bound; the whole-scan statement follows by induction over calls (paper).',
-    level_note='RELATIVE to the assumed Cursor contract (prelude/cursor_contract.rs: seek stops at the key or just before where it would be; first next yields the current slot; next after the end is harmless) '
-               'until the cursor unit is built. Byte-string order is an uninterpreted strict total order.',
+    level_note='Range::next is RELATIVE to the Cursor contract (prelude/cursor_contract.rs: seek stops at the key or just before where it would be; first next yields the current slot). '
+               'The cursor unit proves panic-freedom, termination and stack discipline of the real cursor over an assumed structurally sound tree; that the traversal is in key order (R2-full) and '
+               'PageNode::index (binary search, slot-before rule) are assumed. Byte-string order is an uninterpreted strict total order.',
     assumptions=[A_TOOLS, 'Cursor::{seek,current,next} by assumed contract over an abstract ascending key sequence', 'byte-string comparison is a strict total order (axiom_key_order); rule R10: `a < *b` on &[u8] compares the slices',
                  'the RangeBounds implementation agrees with its vstd specification (true for every std range type and (Bound, Bound))'],
-    not_covered=['in-order traversal of the tree by Cursor (assumed contract)', 'bucket-only / pair-only filters (R3)'],
+    not_covered=['in-order traversal of the tree by Cursor (R2-full; assumed contract)', 'PageNode::index / val / index_page bodies (N2; assumed contract)', 'bucket-only / pair-only filters (R3: generic `for data in self.i.by_ref()` is outside what Verus accepts)'],
 )
 
 PENDING = 'not claimed yet in this build session: deciding units are not built (see DESIGN section 10)'
